@@ -31,7 +31,7 @@ def base_fields(seed):
 
     rng = np.random.default_rng(seed)
     out = []
-    for shape, dx in (((48,), 1.0), ((32, 24), 0.5), ((12, 12, 16), 2.0)):
+    for shape, dx in (((48,), 1.0), ((32, 24), 0.5), ((12, 12, 16), 2.0), ((34,), 0.25), ((26, 17), 1.0)):
         raw = ndimage.gaussian_filter(rng.standard_normal(shape), sigma=2.0, mode="wrap")
         out.append((f"smooth{len(shape)}d", shape, dx, True, raw / raw.std() + 0.3))
     # a box that is periodic along its first axis only: translations along THAT axis must not matter either
@@ -223,6 +223,13 @@ def check_translates(seed):
     b[8:12, 7:12] = 1
     b[12:17, 12:16] = 1          # a staircase of three
     cases.append(("stairs2d", b, 0.5, [True, False]))
+    u = np.zeros((40, 40))
+    u[6:9, 8:24] = 1
+    u[6:22, 8:11] = 1
+    u[6:22, 21:24] = 1           # a U-shaped domain: the seam cuts it into one piece on one side and two on the other
+    ii, jj = np.indices((40, 40))
+    u[(ii - 30) ** 2 + (jj - 30) ** 2 < 16] = 1
+    cases.append(("ushape2d", u, 1.0, [True, True]))
     c = np.zeros((12, 12, 12))
     c[1:5, 1:5, 1:5] = 1
     c[5:9, 5:9, 1:5] = 1         # two cubes sharing an edge
